@@ -15,8 +15,8 @@
 (* email_with_domain, chain) are sequences of one-character strings; the   *)
 (* harness joins / splits them.  An answer is                              *)
 (*   [init, hasMulti, multi, val, ok]: init = "err" when the module        *)
-(*   refused its configuration; multi = LookupMulti (when the module has   *)
-(*   it), (val, ok) = Lookup.                                              *)
+(*   refused its configuration, "panic" when the table code panicked;      *)
+(*   multi = LookupMulti (when the module has it), (val, ok) = Lookup.     *)
 (*                                                                         *)
 (* Deviations of the code on HEAD:                                         *)
 (*   "NoReplNoMatch"        table.regexp without a replacement never       *)
@@ -246,7 +246,8 @@ Viol(i, o) ==
   LET r == Rule(i)
       P(name, c) == IF c THEN {} ELSE {name}
   IN
-  IF o.init = "err" THEN P("ConfigRefused", r.init = "err")
+  IF o.init = "panic" THEN {"TableCrashed"}
+  ELSE IF o.init = "err" THEN P("ConfigRefused", r.init = "err")
   ELSE IF r.init = "err" THEN (IF i.tab = "file" THEN {"BadFileAccepted"} ELSE {})
   ELSE
   P("LookupDisagreesWithMulti", Coherent(o)) \cup
